@@ -14,9 +14,6 @@ def keys (vis : List (Int × Int)) : List Int := vis.map (·.1)
 theorem hasKey_iff {vis : List (Int × Int)} {i : Int} : hasKey vis i = true ↔ i ∈ keys vis := by
   unfold hasKey keys
   simp only [List.any_eq_true, beq_iff_eq, List.mem_map]
-  constructor
-  · rintro ⟨e, he, h⟩; exact ⟨e, he, h⟩
-  · rintro ⟨e, he, h⟩; exact ⟨e, he, h⟩
 
 theorem hasKey_false_iff {vis : List (Int × Int)} {i : Int} : hasKey vis i = false ↔ i ∉ keys vis := by
   rw [← hasKey_iff]; simp
@@ -396,7 +393,7 @@ theorem travStep_inv {E : EL} {V : List Int} (hends : ∀ e ∈ E, e.1 ∈ V ∧
     simp only [Bool.false_eq_true, if_false]
     have hnk := hasKey_false_iff.mp hk
     have hs := GInv.start h.ok h.closed h.linked hr hnk
-    obtain ⟨hg, hc⟩ := grow_inv hends hVpos h.closed V.length _ hs (by simp; omega)
+    obtain ⟨hg, hc⟩ := grow_inv hends hVpos h.closed V.length _ hs (by simp)
     refine ⟨⟨hg.ok, hc, hg.linked⟩, fun k hk' => hg.sub k hk', ?_⟩
     apply grow_keys_mono
     rw [keys_append]; exact List.mem_append_right _ (by simp [keys])
@@ -425,7 +422,7 @@ theorem traverse_inv {E : EL} {V : List Int} (hends : ∀ e ∈ E, e.1 ∈ V ∧
     TInv E V (traverse E V.length order) ∧ ∀ r ∈ order, r ∈ keys (traverse E V.length order) := by
   rw [traverse_eq]
   obtain ⟨h1, _, h3⟩ := foldl_travStep_inv hends hVpos order ho [] ⟨.nil, by intro e _; simp [keys], by
-    intro e _ h; simp [keys] at h⟩
+    intro e _ h; exact absurd h (by simp [keys])⟩
   exact ⟨h1, h3⟩
 
 /-! ### rewire -/
